@@ -65,6 +65,36 @@ Theorem C09_decode_accepts_iff_valid : forall sha256 t, table_ok t = true ->
 Proof. exact any_decode_valid_iff. Qed.
 Print Assumptions C09_decode_accepts_iff_valid.
 
+(* ---- exactness (needs one more computable side condition, [table_ws_ok]: no shorter body under
+   the same binary prefix has fewer digits with the same leading characters — this is what makes a
+   string padded with trailing whitespace, which the base58 package strips, unacceptable) -------- *)
+Theorem C09_pinned_table_full_ok : table_full_ok table43 = true.
+Proof. exact table43_full_ok. Qed.
+Print Assumptions C09_pinned_table_full_ok.
+
+(* base58_decode returns p on s  IFF  s is exactly the Base58Check encoding, under some row of the
+   table, of a payload p of that row's length.  Every other string — wrong checksum, wrong length,
+   unknown or foreign prefix, any corruption of a valid string that is not itself valid, trailing
+   whitespace — is rejected. *)
+Theorem C09_decode_iff_encoding : forall sha256 t, sha_ok sha256 -> table_full_ok t = true ->
+  forall s p, base58_decode sha256 t s = Ok p <-> exists r, encodes sha256 t r p s.
+Proof. exact any_decode_iff_all. Qed.
+Print Assumptions C09_decode_iff_encoding.
+
+(* a string is the encoding of at most one (kind, payload) *)
+Theorem C09_one_string_one_kind : forall sha256 t, sha_ok sha256 -> table_full_ok t = true ->
+  forall r1 p1 r2 p2 s, encodes sha256 t r1 p1 s -> encodes sha256 t r2 p2 s -> r1 = r2 /\ p1 = p2.
+Proof. exact any_encodes_unique. Qed.
+Print Assumptions C09_one_string_one_kind.
+
+(* the validators (is_pkh, is_sig, is_bh, ... are [validate] with their prefix lists): true exactly
+   on the valid encodings of a kind whose textual prefix is listed *)
+Theorem C09_validators : forall sha256 t, sha_ok sha256 -> table_full_ok t = true ->
+  forall prefixes s,
+  validate sha256 t prefixes s = true <-> exists r p, encodes sha256 t r p s /\ In (tpre r) prefixes.
+Proof. exact any_validate_iff. Qed.
+Print Assumptions C09_validators.
+
 (* non-vacuity: a function with 32-byte output exists, and with it the all-zero tz1 payload
    encodes to 36 characters starting with "tz1" and decodes back *)
 Example C09_sha_ok_inhabited : sha_ok (fun _ => repeat x00 32).
